@@ -172,7 +172,14 @@ func C10() int {
 			ff.Enc = enc
 			args := append([]string{"redact"}, ff.Args(fi, kf)...)
 			args = append(args, in, "-o", filepath.Join(dir, out))
-			r := s.CLI(sut.Run{Args: args, Dir: dir})
+			// separate runs are separate processes of possibly different builds / environments: the version
+			// string the tool takes from ANONYMONGO_VERSION differs from run to run, the key file does not
+			env := map[string][]string{"e2.log": {"ANONYMONGO_VERSION=2.1.0"}, "e3.log": {"ANONYMONGO_VERSION=v7.0.1-rc1"}, "e4.log": {"ANONYMONGO_VERSION=3.0.0"}}[out]
+			// an earlier, LONGER output of another job at the same path (re-running after the log was trimmed)
+			if out == "e2.log" || out == "p4.log" {
+				os.WriteFile(filepath.Join(dir, out), bytes.Repeat([]byte("{\"stale\":\"line of an earlier run\"}\n"), 40000), 0o644)
+			}
+			r := s.CLI(sut.Run{Args: args, Dir: dir, Env: env})
 			b, _ := os.ReadFile(filepath.Join(dir, out))
 			return splitLines(b), r
 		}
